@@ -79,10 +79,38 @@ iface("s1", "S", 0, "basic", [("PING", "async", "-", "unit")])
 iface("e1", "E", 10, "basic", [("PING?", "async", "-", "const:u8:1")])
 iface("n1", "-", 0, "basic", [("SYSTem:VERSion", "async", "-", "unit"), ("SYSTem:ERRor:COUNt", "sync", "-", "unit")])
 
+# ---- hand-written shapes that stress the spelling rule -------------------------
+# numeric suffixes and underscores after a lower-case tail, siblings sharing a prefix or a short form's
+# prefix, upper-case-only optional nodes, a user declaration below SYSTem next to the standard commands,
+# mnemonics longer than 12 characters, a command with the maximum number of parameters
+iface("a1", "SE", 4, "basic", [
+ ("OUTPut2:STATe", "async", "bool", "unit"),
+ ("OUTPut2:STATe?", "sync", "-", "const:u8:2"),
+ ("OUTPut:STATe?", "sync", "-", "const:u8:1"),
+ ("CHANnel1:RANGe_Auto", "async", "-", "unit"),
+ ("CHANnel_1:RANGe", "async", "-", "unit"),
+ ("MEASure:VOLTage?", "async", "-", "const:u8:3"),
+ ("MEASurement:POWer?", "async", "-", "const:u8:4"),
+ ("MEASure:[DC]:CURRent?", "async", "-", "const:u8:5"),
+ ("SYST:BEEP", "sync", "-", "unit"),
+ ("SYSTem:BEEPer:TONE", "sync", "-", "unit"),
+ ("CONFigure:OUT_Level", "async", "-", "unit"),
+ ("CONFigure:OUTPut", "async", "-", "unit"),
+ ("CONFigure:OUTA", "async", "-", "unit"),
+ ("CALCulate:TRANSformation:HISTogram:COUNt?", "async", "-", "const:u16:77"),
+ ("MATH:OPeration:MULTiplyFloat?", "async", "f64,f64", "echo"),
+ ("SIZE:ZERO:NORMalize", "async", "-", "unit"),
+ ("WIDE", "async", "u8,u8,u8,u8,u8,u8,u8,u8,u8,u8", "unit"),
+ ("TRIGger:SOURce", "sync", "-", "unit"),
+ ("TRIGGER:DELay", "sync", "-", "unit"),
+ ("[ROOT]:[SUB]:LEAF", "sync", "-", "unit"),
+])
+
 # ---- seeded random declaration sets ----------------------------------------
 POOL = ["SYSTem", "MEASure", "VOLTage", "CURRent", "CONFigure", "OUTPut", "STATe", "DC", "AC",
         "aBc", "D_1e", "X1", "CH2a", "TeST", "RANGe", "A", "B", "LEVel", "TRIGger", "SOURce",
-        "Q_", "Z9z", "FREQuency", "IMMediate", "MODE"]
+        "Q_", "Z9z", "FREQuency", "IMMediate", "MODE", "OUTPut2", "CHANnel1", "SIZE", "ZERO", "MEASurement",
+        "CALCulation", "CALCulate", "TRANSformation", "L_o"]
 def rand_set(rng, n_decl):
     decls = []
     tries = 0
@@ -117,7 +145,7 @@ def rand_set(rng, n_decl):
                 decls.append((c, rng.choice(["sync", "async"]), args, beh))
     return decls
 
-for k in range(8):
+for k in range(12):
     rng = random.Random(1000 + k)
     flags = ["-", "S", "E", "SE"][k % 4]
     iface(f"r{k}", flags, 10 if "E" in flags else 0, "basic", rand_set(rng, 6 + k))
